@@ -8,7 +8,7 @@
 use crate::core_ops::guard;
 use crate::guard::{ALLOCATED, ALLOC_LIMIT};
 use crate::prng::Rng;
-use crate::record::{record, Ct};
+use crate::record::{record, record_hr, Ct};
 use crate::samples::Samples;
 use crate::schema::{gen_schema, parse, show};
 use crate::sexp::{hex, unhex, Sexp};
@@ -196,6 +196,26 @@ fn has_dup_names(s: &O) -> bool {
     }
 }
 
+/// every map in the schema is keyed by strings (the only maps a JSON object can represent)
+fn string_keyed(s: &O) -> bool {
+    fn data(d: &OwnedData) -> bool {
+        match d {
+            OwnedData::Unit => true,
+            OwnedData::Newtype(t) => string_keyed(t),
+            OwnedData::Tuple(ts) => ts.iter().all(string_keyed),
+            OwnedData::Struct(fs) => fs.iter().all(|f| string_keyed(&f.ty)),
+        }
+    }
+    match s {
+        O::Map { key, val } => **key == O::String && string_keyed(val),
+        O::Option(t) | O::Seq(t) => string_keyed(t),
+        O::Tuple(ts) => ts.iter().all(string_keyed),
+        O::Struct { data: d, .. } => data(d),
+        O::Enum { variants, .. } => variants.iter().all(|v| data(&v.data)),
+        _ => true,
+    }
+}
+
 /// is the JSON form of this recorded value unambiguous (the scope of C17)?
 fn faithful(c: &Ct) -> bool {
     fn nullish(c: &Ct) -> bool {
@@ -237,12 +257,13 @@ pub fn eval(ctx: &mut Ctx, op: &str, args: &[Sexp]) -> Option<String> {
             let bytes = unhex(args.get(2)?.atom()?)?;
             let a = do_ser(&s, &j);
             let b = do_de(&s, &bytes);
+            let class = if args.get(3).and_then(|x| x.atom()) == Some("hr-divergent") { "finding:dyn-human-readable-type " } else { "" };
             // the op line was generated only for values whose JSON form is unambiguous
             if a != Ok(Ok(bytes.clone())) {
-                ctx.oracle_fail(format!("dynamic encoding of the value's JSON gives {} instead of the static bytes", ser_str(&a)));
+                ctx.oracle_fail(format!("{}dynamic encoding of the value's JSON gives {} instead of the static bytes", class, ser_str(&a)));
             }
             if b != Ok(Ok(j.clone())) {
-                ctx.oracle_fail(format!("dynamic decoding of the static bytes gives {} instead of the value's JSON", de_str(&b)));
+                ctx.oracle_fail(format!("{}dynamic decoding of the static bytes gives {} instead of the value's JSON", class, de_str(&b)));
             }
             Some(format!("ser={} de={}", ser_str(&a), de_str(&b)))
         }
@@ -313,9 +334,12 @@ pub fn agree_lines<T: Schema + Serialize + Samples>(r: &mut Rng, nrand: usize, o
             Ok(c) => c,
             Err(_) => continue,
         };
-        if !faithful(&ct) {
+        if !faithful(&ct) || !string_keyed(&schema) {
             continue;
         }
+        // a type whose Serialize branches on is_human_readable() (uuid) shows serde_json a different
+        // call tree than postcard: classified, so that the oracle can name the known finding
+        let hr_divergent = record_hr(v).map(|c| c != ct).unwrap_or(true);
         let (j, bytes) = match (serde_json::to_value(v), postcard::to_allocvec(v)) {
             (Ok(j), Ok(b)) => (j, b),
             _ => continue,
@@ -323,7 +347,7 @@ pub fn agree_lines<T: Schema + Serialize + Samples>(r: &mut Rng, nrand: usize, o
         if bytes.len() > 2000 {
             continue;
         }
-        out.push(format!("dynagree {} {} {}", show(&schema), show_json(&j), hex(&bytes)));
+        out.push(format!("dynagree {} {} {}{}", show(&schema), show_json(&j), hex(&bytes), if hr_divergent { " hr-divergent" } else { "" }));
     }
 }
 
